@@ -1,6 +1,7 @@
 package main
 
 import (
+	"os"
 	"fmt"
 	"math"
 	"strings"
@@ -323,6 +324,16 @@ func evalC09(grid []Cfg) func(x *Ctx, in Input) {
 				solo := in.part(p)
 				rs := x.Run(solo, c, nil)
 				x.st.Transitions++
+				for _, pv := range rs.Pivots {
+					if pv.Pending {
+						x.Hist("solo-runs-cut-short-by-the-pivot-budget", pv.Maxitr)
+						if os.Getenv("VERIF_DEBUG") != "" {
+							f, _ := os.OpenFile(os.Getenv("VERIF_DEBUG"), os.O_APPEND|os.O_CREATE|os.O_WRONLY, 0644)
+							defer f.Close()
+							fmt.Fprintf(f, "DEBUG cut-short %v th=%d solo=%+v union=%+v\n", in.E, c.TH, rs.Pivots, ru.Pivots)
+						}
+					}
+				}
 				if !rs.OK() {
 					x.Blocked(rs)
 					continue
@@ -359,6 +370,74 @@ func evalC09(grid []Cfg) func(x *Ctx, in Input) {
 	}
 }
 
+// padToNextSquare puts the connected graph a next to a path (a single self-looped node if one node is enough) that
+// lifts the node count of the union to the next square; second = the padding's edges come first.
+func padToNextSquare(a Input, second bool) Input {
+	n := a.N()
+	r := 1
+	for (r+1)*(r+1) <= n {
+		r++
+	}
+	k := (r+1)*(r+1) - n
+	var ea, eb []int
+	for i := 0; i < a.M(); i++ {
+		ea = append(ea, a.E[2*i], a.E[2*i+1])
+	}
+	if k == 1 {
+		eb = []int{1000, 1000}
+	}
+	for i := 0; i+1 < k; i++ {
+		eb = append(eb, 1000+i, 1000+i+1)
+	}
+	if second {
+		return namedUnion(append(append([]int(nil), eb...), ea...))
+	}
+	return namedUnion(append(append([]int(nil), ea...), eb...))
+}
+
+// evalC09Budget: the input is ONE connected graph. It is laid out alone first; if the layerer's simplex was cut short
+// by its pivot budget (reported by hook H2), the graph is padded to the next square and the union is checked like any
+// other C09 input. Components whose simplex runs to completion cannot tell whose node count the budget was taken from,
+// so they are counted and skipped. A recorded violation carries the union, which is evaluated directly on replay.
+func evalC09Budget(grid []Cfg) func(x *Ctx, in Input) {
+	inner := evalC09(grid)
+	return func(x *Ctx, in Input) {
+		if len(in.Names) > 0 {
+			inner(x, in)
+			return
+		}
+		cut := map[int]bool{}
+		for _, c := range grid {
+			c := c
+			c.P5 = 0
+			if !x.Unit(&c) {
+				cut[c.TH] = true // locating or resuming after an abnormal end inside this input: walk every unit
+				continue
+			}
+			r := x.Run(in, c, nil)
+			if !r.OK() {
+				x.Blocked(r)
+				continue
+			}
+			for _, pv := range r.Pivots {
+				if pv.Pending && pv.Pivots >= pv.Maxitr {
+					cut[c.TH] = true
+				}
+			}
+		}
+		if len(cut) == 0 {
+			x.Hist("components-whose-simplex-completes-within-the-budget", 1)
+			return
+		}
+		x.Hist("components-cut-short-by-the-pivot-budget", in.N())
+		for _, second := range []bool{false, true} {
+			u := padToNextSquare(in, second)
+			x.curInput = u
+			inner(x, u)
+		}
+	}
+}
+
 func collect(sp func(emit func(Input))) []Input {
 	var out []Input
 	sp(func(in Input) { out = append(out, in) })
@@ -380,6 +459,9 @@ func init() {
 				Bound: fmt.Sprintf("all edge lists with %d edges x the same grid x factors {2^-3, 2^6}", dq+1)},
 			{Name: "seeds", Space: spaceSeeded(seedWitnesses, 1), Eval: evalC17(grid, ends),
 				Bound: "all states within 1 edit operation of the recorded witnesses x factors {2^-3, 2^6}"},
+			{Name: "parallel-chains", Space: spaceList(thetaFamilies(tierPick(tier, 5, 4), tier == "thorough")),
+				Eval:  evalC17(gridSpec{P1: []int{0}, P2: allP2, P4: []int{0, 4}, P5: []int{2, 3}, SZ: []int{2}}.list(), ends),
+				Bound: "two paths with 1..5 edges each (thorough: three with 1..4) between a top and a bottom node + at most one extra node attached by two edges at every pair of nodes, 10 edge-list orders each (9..13 nodes: layerings with slack, long edges next to chains) x greedy x {ns,lp} x {sink,bk} x {polyline,ortho} x per-node sizes x factors {2^-3, 2^6}"},
 		}
 	}
 
@@ -453,6 +535,21 @@ func init() {
 				}
 			},
 			Bound: "every ordered pair of 8 richer connected graphs (K2,2, K4, bipartite cycle, long edges, cycles, self-loops) in 2 interleavings (sequential, alternating) x greedy x {ns,lp} x 9 positioners x {fixed, per-name} sizes"})
+		// iteration budgets that depend on the size of the graph: at thoroughness 1 (2) the layerer's pivot budget is
+		// 1 (2) x isqrt(nodes of the component). Every component is padded with a second component that lifts the node count
+		// of the union over the next square, so a budget taken from the union instead of the component shows as soon as the
+		// component's simplex is cut short by its own budget (histogram: solo-runs-cut-short-by-the-pivot-budget)
+		bg := gridSpec{P1: []int{0}, P2: []int{0}, P4: []int{1}, P5: []int{2}, SZ: []int{1}, TH: []int{1, 2}}.list()
+		ps = append(ps,
+			&Pass{Name: "budget-bound", Eval: evalC09Budget(bg),
+				Space: spaceFilter(spaceConcat(spaceList(c10Families()), spaceList(thetaFamilies(4, false)), spaceMacro(3, false)), func(a Input) bool { return a.N() >= 4 }),
+				Bound: "every family graph (K(a,b), ladders, chains with cross links, trees, diamonds, parallel chains) and every shape built by <=3 gadget insertions, with >=4 nodes: laid out alone at thoroughness {1,2}; those whose simplex is cut short by the budget are put next to a path that lifts the union's node count to the next square, both orders"},
+			&Pass{Name: "budget-bound-dense", Eval: evalC09Budget(bg[:1]), Space: spaceDS(7, 8, tierPick(tier, 9, 14)),
+				Bound: fmt.Sprintf("every connected simple DAG on 7 topologically labelled nodes with 8..%d edges at thoroughness 1 (budget 2 alone, 3 inside a union of 9 nodes): same procedure", tierPick(tier, 9, 14))})
+		if tier == "thorough" {
+			ps = append(ps, &Pass{Name: "budget-bound-dense-8", Eval: evalC09Budget(bg[:1]), Space: spaceDS(8, 10, 13),
+				Bound: "every connected simple DAG on 8 topologically labelled nodes with 10..13 edges (101 M) at thoroughness 1 (budget 2 alone, 3 next to a self-looped node): same procedure"})
+		}
 		if tier == "thorough" {
 			ps = append(ps,
 				&Pass{Name: "pairs-G3xG3", Space: unionSpace([][]Input{g3, g3}), Eval: evalC09(gridSpec{P1: []int{0}, P2: allP2, P4: []int{0, 1, 3, 4}, P5: []int{2}, SZ: []int{7}}.list()),
